@@ -37,6 +37,13 @@ Fixpoint set_assoc {A} (l : list (nat * A)) (k : nat) (v : A) : list (nat * A) :
   | (k', v') :: r => if Nat.eqb k k' then (k, v) :: r else (k', v') :: set_assoc r k v
   end.
 Definition memb (x : nat) (l : list nat) : bool := existsb (Nat.eqb x) l.
+(* keep the first occurrence *)
+Fixpoint kf (seen l : list nat) : list nat :=
+  match l with
+  | [] => []
+  | x :: r => if memb x seen then kf seen r else x :: kf (x :: seen) r
+  end.
+Definition dedup (l : list nat) : list nat := kf [] l.
 Fixpoint set_nth {A} (l : list A) (i : nat) (x : A) : list A :=
   match l, i with
   | [], _ => []
@@ -59,7 +66,7 @@ Record cobj := mkCO {
   co_name : nat; co_supers : list nat; co_slots : list slotdef;
   co_inherit : list (nat * nat);
   co_prec : list nat;
-  co_initargs : list (nat * nat);        (* initarg -> slot name, most specific first *)
+  co_initargs : list (nat * nat);        (* (initarg, slot name) for every declaration, most specific first *)
   co_initforms : list (nat * Z) }.       (* slot name -> initform value, most specific first *)
 
 (* generic function: which class names have a method, and the dispatch cache: class name of the
@@ -123,8 +130,9 @@ Definition slot_initforms (sl : list slotdef) : list (nat * Z) :=
 Definition slots_of (hp : list cobj) (p : nat * nat) : list slotdef :=
   match nth_error hp (fst p) with Some sc => co_slots sc | None => [] end.
 (* slot definitions of the class and of everything on its inherit list, most specific first.  The Go
-   code fills the maps from the least specific class to the class itself, later writes winning;
-   looking up the first match in this order gives the same answer. *)
+   code fills the maps from the least specific class to the class itself: for initForms later writes win
+   (looking up the first match in this order gives the same answer); initArgs collects, per initarg, the
+   slots that declare it (initarg_slots below). *)
 Definition all_slots (hp : list cobj) (own : list slotdef) (inh : list (nat * nat)) : list (list slotdef) :=
   own :: map (slots_of hp) inh.
 Definition mk_initargs hp own inh : list (nat * nat) := flat_map slot_initargs (all_slots hp own inh).
@@ -241,16 +249,29 @@ Definition init_own (sl : list slotdef) (vs : varmap) : varmap :=
   fold_left (fun vs sd => set_assoc vs (sd_name sd) (sd_initform sd)) sl vs.
 Definition init_inh (sl : list slotdef) (vs : varmap) : varmap :=
   fold_left (fun vs sd => match lookup vs (sd_name sd) with Some _ => vs | None => set_assoc vs (sd_name sd) (sd_initform sd) end) sl vs.
-(* shared-initialize, supplied initargs: unknown initarg -> error; a second initarg for a slot already
-   set by an initarg -> error ("Duplicate initarg"); setSlot writes obj.vars[slot] (adding it if absent) *)
+(* initArgs[k] (repo_fixes/C12-5): the slots that declare the initarg k anywhere along the inherit list, one
+   entry per slot name *)
+Definition initarg_slots (ia : list (nat * nat)) (k : nat) : list nat :=
+  dedup (map snd (filter (fun p => Nat.eqb (fst p) k) ia)).
+(* shared-initialize, supplied initargs: unknown initarg -> error; the initarg sets EVERY slot that declares it;
+   a slot already set by an initarg -> error ("Duplicate initarg"); setSlot writes obj.vars[slot] (adding it
+   if absent).  The slots of one initarg are distinct, so the order in which they are set does not matter. *)
+Fixpoint set_slots (ss : list nat) (v : Z) (seen : list nat) (vs : varmap) : option (list nat * varmap) :=
+  match ss with
+  | [] => Some (seen, vs)
+  | s :: r => if memb s seen then None else set_slots r v (s :: seen) (set_assoc vs s (Some v))
+  end.
 Fixpoint shared_args (ia : list (nat * nat)) (args : list (nat * Z)) (seen : list nat) (vs : varmap)
   : option (list nat * varmap) :=
   match args with
   | [] => Some (seen, vs)
   | (k, v) :: r =>
-      match lookup ia k with
-      | None => None
-      | Some s => if memb s seen then None else shared_args ia r (s :: seen) (set_assoc vs s (Some v))
+      match initarg_slots ia k with
+      | [] => None
+      | ss => match set_slots ss v seen vs with
+              | None => None
+              | Some (seen', vs') => shared_args ia r seen' vs'
+              end
       end
   end.
 (* shared-initialize, initforms: the initForms map has one entry per slot name (the most specific
